@@ -1125,6 +1125,8 @@ class Cache:
                 columns = (None, None) + self._disk.store(
                     value, False, key=key
                 )
+                # Written inside the transaction: removed if it fails.
+                self._txn_created.append(columns[4])
                 self._row_update(rowid, now, columns)
                 self._cull(now, sql, cleanup)
                 cleanup(filename)
